@@ -5,7 +5,7 @@ pub assume_specification<'a, T: Copy> [std::option::Option::<&T>::copied] (o: st
 #[verifier::external_body]
 fn be_u16(a: u8, b: u8) -> (r: u16) ensures r as int == a as int * 256 + b as int { u16::from_be_bytes([a, b]) }
 #[verifier::external_body]
-fn be_i16(a: u8, b: u8) -> (r: i16) ensures (r >= 0) == (a < 128) { i16::from_be_bytes([a, b]) }
+fn be_i16(a: u8, b: u8) -> (r: i16) ensures (r >= 0) == (a < 128), r as int == (if a < 128 { a as int * 256 + b as int } else { a as int * 256 + b as int - 65536 }) { i16::from_be_bytes([a, b]) }
 #[verifier::external_body]
 fn be_u32(a: u8, b: u8, c: u8, d: u8) -> (r: u32)
     ensures r as int == ((a as int * 256 + b as int) * 256 + c as int) * 256 + d as int
